@@ -38,7 +38,7 @@ def run(ctx, report):
         n = 0
         mism = None
         computed = []
-        for p in probes(fields, acc, ctx.seed, n_random=12):
+        for p in probes(fields, acc, ctx.seed, n_random=400 if ctx.tier == "thorough" else 12):
             args = [p.get(c, "") for c in acc]
             got = ev.call(r.cls, "compute", [args])
             n += 1
